@@ -23,8 +23,8 @@ LEVEL = "proof"
 MANIFEST = dict(
     category="proof",
     text="Lean 4 theorems on a model of the plain C API assembly of wrapc.py: for ALL parameter lists and values of the modelled "
-         "argument kinds (native/bool/char/enum by value, native/bool/struct by value, pointer and reference, char*, std::string "
-         "pointer/reference in/out/inout, class instances by value/pointer/reference) the C++ callee sees the documented conversion "
+         "argument kinds (native/bool/char/enum by value, native/bool/struct by value, pointer and reference, native `**`/`*&`, "
+         "char*, std::string by value and pointer/reference in/out/inout, class instances by value/pointer/reference) the C++ callee sees the documented conversion "
          "of each C argument in declaration order, `this` is the object held by the capsule named by the first C parameter exactly "
          "for instance methods and destructors, results (native, reference-as-pointer, enum, c_str, struct, class by "
          "pointer/reference/value, constructor) are converted back as documented; the call_list rule over the 2x3 table; "
@@ -37,7 +37,7 @@ MANIFEST = dict(
     note="Trusted: Lean kernel; translator pattern table (tools/extract_cstmts.py: meaning of each template line); the abstract "
          "semantics of C++ argument passing in Model/WrapC.lean (evalCall/resolve); each argument's operations are evaluated in "
          "its own two-variable environment (parameter names are distinct). Not modelled (`_partial`): bufferify/CFI entries "
-         "(vectors, character buffers, contexts), `**`/`*&`, std::string by value, function pointers, MPI_Comm, deref(scalar), "
+         "(vectors, character buffers, contexts), `**`/`*&` of non-native types, function pointers, MPI_Comm, deref(scalar), "
          "C_error_pattern, fstatements; the destructor's clearing of the capsule address; g++/gcc code generation.",
     technique="Lean 4 proof (induction over parameter lists and paths, decide +kernel over regenerated tables) + differential "
               "correspondence + compile-and-run oracle with sanitizers",
@@ -57,6 +57,8 @@ THEOREMS = {
         "Shroud.WrapC.call_list_missing_deref_differs",
         "Shroud.WrapC.table_arg_shapes",
         "Shroud.WrapC.arg_call_equivalence",
+        "Shroud.WrapC.string_by_value",
+        "Shroud.WrapC.pointer_to_pointer",
         "Shroud.WrapC.enum_indirect_ill_typed",
         "Shroud.WrapC.args_call_equivalence",
         "Shroud.WrapC.arg_out_equivalence",
@@ -82,7 +84,7 @@ THEOREMS = {
 }
 
 UNMODELLED = ["entries with a buf/cfi/cdesc part (bufferify / CFI API: std::vector, character buffers, array contexts)",
-              "`**` and `*&` arguments", "std::string by value", "function-pointer (callback) arguments", "MPI_Comm",
+              "`**` / `*&` of non-native types (char **, void **)", "function-pointer (callback) arguments", "MPI_Comm",
               "template-argument specialisations", "deref(scalar) results", "C_error_pattern", "fstatements overrides",
               "language c libraries (no wrapper when none is needed)", "the destructor's clearing of the capsule address"]
 
@@ -347,6 +349,49 @@ def expected_c_name(cls, node):
         return None
 
 
+TM_NAME = {"bool": "bool", "char": "char", "cstr": "char", "string": "std::string", "enum": "Color", "struct": "Pt"}
+MODE = {"val": "scalar", "ptr": "*", "ref": "&", "pp": "**", "pr": "*&"}
+
+
+def documented_names(spec):
+    """(class, C++ name or ctor/dtor, parameter types) -> C name by the documented rule, computed from the description"""
+    out = {}
+    for f in spec.funcs:
+        for cname, nd, tt in spec.c_names(f):
+            ps = list(f.params) + [p for p, _ in f.defaults[:nd]]
+            sig = tuple(((tt if p.t == "T" else p.t) if p.fam in ("native", "class") else TM_NAME[p.fam], MODE[p.mode]) for p in ps)
+            out[(f.cls or "", f.kind if f.kind != "func" else f.name, sig)] = cname
+    return out
+
+
+def node_key(cls, node):
+    ast = node.ast
+    kind = "ctor" if ast.is_ctor() else ("dtor" if ast.is_dtor() else ast.name)
+    sig = tuple((a.typemap.name, a.get_indirect_stmt()) for a in ast.params)
+    return (cls.name if cls is not None else "", kind, sig)
+
+
+def check_documented_names(ctx, spec, lib, shapes):
+    want = documented_names(spec)
+    got = {}
+    for cls, node in walk_functions(lib):
+        if node.wrap.c and node.fmtdict.inlocal("C_name"):
+            got[node_key(cls, node)] = node.fmtdict.C_name
+    sh = ",".join(sorted(spec.overload_shapes())) or "-"
+    for s in spec.overload_shapes():
+        shapes[s] = shapes.get(s, 0) + 1
+    for k, cname in sorted(want.items()):
+        ctx.count(1)
+        if got.get(k) != cname:
+            ctx.fail("c02:documented-c-name:%s" % sh,
+                     "%s%s(%s) must be reachable as %s (position among all overloads of the name, explicit suffix for that member "
+                     "only) but the generated C name is %s" % (k[0] + "::" if k[0] else "", k[1], ", ".join("%s %s" % x for x in k[2]),
+                                                               cname, got.get(k)),
+                     {"yaml": spec.yaml(), "function": "%s %s %s" % k, "expected": cname, "actual": got.get(k),
+                      "generated_names": sorted(got.values())})
+            return
+
+
 def run_tie(ctx, ok, thorough, xinfo):
     from shroud import statements, wrapc
     from tools import extract_cstmts as xc
@@ -358,6 +403,7 @@ def run_tie(ctx, ok, thorough, xinfo):
     r = common.rng("c02-tie")
     bad = []
     stats = {}
+    shapes = {}
 
     captured = {}
     bodies = {}
@@ -403,8 +449,8 @@ def run_tie(ctx, ok, thorough, xinfo):
         wrapc.Wrapc._create_splicer = spy_spl
         # generated descriptions
         nlib = 40 if thorough else 12
-        for i in range(nlib):
-            spec = cxxgen.gen_spec(r, "tg%d" % i, rich=True)
+        for i in range(nlib + 1):
+            spec = cxxgen.fixed_spec("tgf") if i == nlib else cxxgen.gen_spec(r, "tg%d" % i, rich=True)
             d = os.path.join(work, "g%d" % i)
             os.makedirs(d)
             y = shroudrun.write_yaml(d, spec.name + ".yaml", spec.yaml())
@@ -415,6 +461,7 @@ def run_tie(ctx, ok, thorough, xinfo):
                          {"yaml": spec.yaml()})
                 continue
             check_library(ctx, captured["lib"], dict(bodies), dict(snaps), it, xc, names, "gen%d" % i, reqs, meta, captured["language"])
+            check_documented_names(ctx, spec, captured["lib"], shapes)
             # C names: documented template, distinct
             seen = {}
             for cls, node in walk_functions(captured["lib"]):
@@ -469,6 +516,7 @@ def run_tie(ctx, ok, thorough, xinfo):
         common.rmtree(work)
 
     ctx.count(len(lk_reqs) + len(reqs))
+    ctx.note("overload_shapes_tie", dict(sorted(shapes.items())))
     ctx.note("lookup_requests", len(lk_reqs))
     ctx.note("function_requests", len(reqs))
     if not (ok and drv.available()):
